@@ -67,10 +67,12 @@ var encKeys = func() []*ecdsa.PrivateKey {
 }()
 
 const (
-	keyperSetActivation = 100 // L1 activation block of keyper set 1
-	dkgStartDelta       = 10  // config DKGStartBlockDelta
-	l1Idle              = 50  // L1 height while keypers check in
-	l1Vote              = 95  // L1 height from which keyper set 1 is voted for
+	keyperSetActivation  = 100 // L1 activation block of keyper set 1
+	dkgStartDelta        = 10  // config DKGStartBlockDelta
+	l1Idle               = 50  // L1 height while keypers check in
+	l1Vote               = 95  // L1 height from which keyper set 1 is voted for
+	keyperSet2Activation = 200 // L1 activation block of keyper set 2 (overlapping-eons scenarios)
+	l1Vote2              = 195 // L1 height from which keyper set 2 is voted for
 )
 
 // ---------------------------------------------------------------------------
@@ -190,6 +192,11 @@ func (s ByzStrategy) String() string {
 		strings.Join(ev, ","), s.Accuse, tm(s.LateAcc, s.AccOff, s.EarlyAcc), apo, tm(s.LateApo, s.ApoOff, s.EarlyApo))
 }
 
+type overlapSpec struct {
+	At  int // block offset from the first eon's start at which keyper set 2 becomes due
+	Rot int // keyper set 2 = keyper set 1 rotated by Rot positions
+}
+
 type stall struct{ Pos, From, Len int } // keyper at config position Pos takes no step in blocks h0+From .. h0+From+Len-1
 
 type Scenario struct {
@@ -206,6 +213,12 @@ type Scenario struct {
 	// the DKG is finalized: a slow node that catches up over ranges of several blocks.
 	Lag       map[int]int
 	LagOffset int
+	// Overlap: a second keyper set (index 2, the same keypers in rotated order)
+	// becomes due on the main chain while the first DKG runs: from open height
+	// h0+Overlap.At the observed L1 block number is past its voting point, the
+	// keypers vote for it, shuttermint accepts it and starts a second eon whose
+	// DKG overlaps the first one.
+	Overlap *overlapSpec
 	// StartLate: the keyper process at position p comes up only StartLate[p]
 	// blocks after the eon start (open height h0+d): it then catches up from
 	// block 1 and its check-in - the encryption key the dealers wait for -
@@ -233,10 +246,22 @@ func (sc Scenario) String() string {
 	if len(sc.StartLate) > 0 {
 		lag += fmt.Sprintf(" startLate=%v", sc.StartLate)
 	}
+	if sc.Overlap != nil {
+		lag += fmt.Sprintf(" overlap={set2 due at +%d, rotated by %d}", sc.Overlap.At, sc.Overlap.Rot)
+	}
 	if sc.PlainBudget > 0 {
 		lag += fmt.Sprintf(" budget=%d", sc.PlainBudget)
 	}
 	return fmt.Sprintf("n=%d t=%d L=%d order=%v fork=%v fair=%v stalls=%v%s byz=[%s]", sc.N, sc.T, sc.L, sc.Order, sc.ForkEnabled, sc.Fair, sc.Stalls, lag, strings.Join(bz, " "))
+}
+
+// order2: universe index per position in keyper set 2.
+func (sc Scenario) order2() []int {
+	o := make([]int, sc.N)
+	for p := range o {
+		o[p] = sc.Order[(p+sc.Overlap.Rot)%sc.N]
+	}
+	return o
 }
 
 func (sc Scenario) honest() []int {
@@ -406,8 +431,13 @@ type Run struct {
 	addrs []common.Address // by position
 	l1    uint64
 
-	h0  int64 // height of the EonStarted event (0: not yet)
-	eon uint64
+	h0       int64 // height of the EonStarted event (0: not yet)
+	eon      uint64
+	h1       int64 // second (overlapping) eon: height of its EonStarted event
+	eon2     uint64
+	scText   string // scenario as constructed (history)
+	first0   int64
+	firstEon uint64
 
 	sched         []string      // schedule descriptor
 	plainSchedule bool          // use the plain fair schedule also for the DKG blocks
@@ -430,7 +460,7 @@ func newRun(ctx context.Context, sc Scenario, ch chooser) (*Run, error) {
 	if err != nil {
 		return nil, err
 	}
-	r := &Run{ctx: ctx, sc: sc, ch: ch, nodes: map[int]*Node{}, byz: map[int]*byzActor{}, l1: l1Idle, noLagUntil: map[int]int64{}}
+	r := &Run{ctx: ctx, sc: sc, ch: ch, nodes: map[int]*Node{}, byz: map[int]*byzActor{}, l1: l1Idle, noLagUntil: map[int]int64{}, scText: sc.String()}
 	var keyperStrs []string
 	for p := 0; p < sc.N; p++ {
 		r.addrs = append(r.addrs, uni.Addrs[sc.Order[p]])
@@ -460,6 +490,15 @@ func newRun(ctx context.Context, sc Scenario, ch chooser) (*Run, error) {
 		err = obskeyper.New(setup).InsertKeyperSet(ctx, obskeyper.InsertKeyperSetParams{
 			KeyperConfigIndex: 1, ActivationBlockNumber: keyperSetActivation, Keypers: keyperStrs, Threshold: int32(sc.T),
 		})
+		if err == nil && sc.Overlap != nil {
+			var set2 []string
+			for _, u2 := range sc.order2() {
+				set2 = append(set2, shdb.EncodeAddress(uni.Addrs[u2]))
+			}
+			err = obskeyper.New(setup).InsertKeyperSet(ctx, obskeyper.InsertKeyperSetParams{
+				KeyperConfigIndex: 2, ActivationBlockNumber: keyperSet2Activation, Keypers: set2, Threshold: int32(sc.T),
+			})
+		}
 		setup.Close()
 		if err != nil {
 			return nil, fmt.Errorf("InsertKeyperSet: %w", err)
@@ -537,6 +576,23 @@ func (r *Run) submitByz(b *byzActor, msg *shmsg.Message, what string) {
 // observe scans newly available chain data for the eon start.
 func (r *Run) observe() {
 	if r.h0 != 0 {
+		if r.sc.Overlap != nil && r.h1 == 0 {
+			// the second eon: look at the newest closed block and the open one
+			for _, b := range []*BlockRec{r.chain.Block(r.chain.Height()), r.chain.Open} {
+				if b == nil {
+					continue
+				}
+				for _, tx := range b.Txs {
+					for _, ev := range tx.Events {
+						if e, err := shutterevents.MakeEvent(ev, b.Height); err == nil {
+							if es, ok := e.(*shutterevents.EonStarted); ok && es.Eon > r.eon && r.h1 == 0 {
+								r.h1, r.eon2 = b.Height, es.Eon
+							}
+						}
+					}
+				}
+			}
+		}
 		return
 	}
 	scan := func(h int64, evs []abcitypes.Event) {
@@ -876,9 +932,23 @@ func (r *Run) execute() error {
 		r.block(false)
 	}
 	// DKG
-	end := r.h0 + 3*r.sc.L
-	for r.chain.OpenHeight() <= end {
-		r.l1 = l1Vote + uint64(r.chain.OpenHeight()-r.h0)
+	for {
+		H := r.chain.OpenHeight()
+		end := r.h0 + 3*r.sc.L
+		if ov := r.sc.Overlap; ov != nil {
+			if r.h1 != 0 {
+				end = max(end, r.h1+3*r.sc.L)
+			} else if H <= r.h0+int64(ov.At)+6 {
+				end = max(end, H) // wait for the second eon to start
+			}
+		}
+		if H > end {
+			break
+		}
+		r.l1 = l1Vote + uint64(H-r.h0)
+		if ov := r.sc.Overlap; ov != nil && H >= r.h0+int64(ov.At) {
+			r.l1 = l1Vote2 + uint64(H-r.h0)
+		}
 		r.block(!r.plainSchedule)
 	}
 	tail := r.sc.Tail
@@ -886,6 +956,11 @@ func (r *Run) execute() error {
 		tail = 8
 	}
 	for i := 0; i < tail; i++ {
+		r.l1++
+		r.block(false)
+	}
+	// a second eon that started late (slow voters) still gets its full run
+	for r.h1 != 0 && r.chain.OpenHeight() <= r.h1+3*r.sc.L+int64(tail) {
 		r.l1++
 		r.block(false)
 	}
@@ -1304,7 +1379,7 @@ func (r *Run) history() string {
 	for _, p := range sortedKeys(r.byz) {
 		bz = append(bz, fmt.Sprintf("byz%d sent %v", p, r.byz[p].sent))
 	}
-	return fmt.Sprintf("scenario: %s\neon=%d h0=%d\nschedule: %s\n%s\nstep errors: %v", r.sc.String(), r.eon, r.h0, strings.Join(r.sched, " "), strings.Join(bz, "\n"), r.stepErrors)
+	return fmt.Sprintf("scenario: %s\nevaluated eon=%d h0=%d (second eon: %d at %d)\nschedule: %s\n%s\nstep errors: %v", r.scText, r.eon, r.h0, r.eon2, r.h1, strings.Join(r.sched, " "), strings.Join(bz, "\n"), r.stepErrors)
 }
 
 func msgKind(tx *TxRec) string {
@@ -1444,4 +1519,31 @@ func persistedVsMemory(n *Node) string {
 		}
 	}
 	return ""
+}
+
+// switchToSecondEon re-labels the run for the evaluation of the second,
+// overlapping eon: positions are those of keyper set 2, the Byzantine keypers
+// (which only act in the first eon) count as silent members.
+func (r *Run) switchToSecondEon() {
+	order2 := r.sc.order2()
+	byU := map[int]*Node{}
+	for _, n := range r.nodes {
+		byU[n.U] = n
+	}
+	nodes := map[int]*Node{}
+	byzS := map[int]ByzStrategy{}
+	var addrs []common.Address
+	for p, u := range order2 {
+		addrs = append(addrs, uni.Addrs[u])
+		if n := byU[u]; n != nil {
+			n.Pos = p
+			nodes[p] = n
+		} else {
+			byzS[p] = ByzStrategy{Commit: cmNone, Apology: apNone, Eval: map[int]int{}}
+		}
+	}
+	r.first0, r.firstEon = r.h0, r.eon
+	r.sc.Order, r.sc.Byz, r.nodes, r.addrs = order2, byzS, nodes, addrs
+	r.h0, r.eon = r.h1, r.eon2
+	r.h1, r.eon2 = r.first0, r.firstEon
 }
